@@ -63,12 +63,16 @@ def verify(src, prop, name):
         else:
             # demo test files meant to live inside a package dir: meta.json may say where
             meta = json.load(open(os.path.join(src, "meta.json")))
-            pk = meta.get("demo_package_dir") or meta.get("demo_dir") or "v2/io"
+            pk = meta.get("demo_package_dir") or meta.get("demo_dir")
+            if not pk:
+                heads = " ".join(open(f).read(400) for f in glob.glob(os.path.join(src, "*_test.go")))
+                m = re.search(r"^package (\w+)", heads, re.M)
+                pk = {"main": "v2/app", "io": "v2/io", "bitstream": "v2/bitstream", "entropy": "v2/entropy", "transform": "v2/transform"}.get(m.group(1) if m else "io", "v2/io")
             for f in glob.glob(os.path.join(src, "*_test.go")):
                 dst = os.path.join(wt, pk, os.path.basename(f))
                 shutil.copyfile(f, dst)
                 indemo.append(dst)
-            demo_cmd = "cd %s/%s && go test -vet=off -count=1 -run 'Demo|Seed|Mutant' . 2>&1 | tail -40" % (wt, pk)
+            demo_cmd = "cd %s/%s && go test -vet=off -count=1 . 2>&1 | tail -40" % (wt, pk)
         rc_with, out_with = sh(demo_cmd, timeout=1200)
         res["demo_fails_with_patch"] = ("FAIL" in out_with) or rc_with != 0
         res["demo_with_tail"] = out_with[-600:]
